@@ -36,11 +36,18 @@ Definition split_chains (chains : list (list Z)) : list (list Z) :=
    Everything but Phi^-1 is rational and computed here.  Phi^-1 (scipy.stats.norm.ppf) is an ORACLE: the harness records
    the pairs (u, z) of the actual calls and hands them over as a table; the model computes every u itself, looks it up
    (so the arguments of Phi^-1 are checked, to 1e-12), requires the table to be increasing, and takes z from it. *)
+(* the same formula on rational chains, every intermediate result reduced to lowest terms (the z-scores are binary64
+   numbers with 52-bit denominators: unreduced sums grow without bound); equal to rhat_sq on injected integer chains
+   (Proofs/C19_Rhat.v, rhat_sq_as_q) *)
+Definition qsumr (l : list Q) : Q := fold_right (fun x acc => Qred (x + acc)) 0 l.
+Definition qmeanr (l : list Q) : Q := Qred (qsumr l / qlen l).
+Definition qvar1r (l : list Q) : Q :=
+  let m := qmeanr l in Qred (qsumr (map (fun x => Qred ((x - m) * (x - m))) l) / (qlen l - 1)).
 Definition rhat_sq_q (chains : list (list Q)) : Q :=
   let n := qlen (hd [] chains) in
-  let B := n * qvar1 (map qmean chains) in
-  let W := qmean (map qvar1 chains) in
-  (B / W + n - 1) / n.
+  let B := n * qvar1r (map qmeanr chains) in
+  let W := qmeanr (map qvar1r chains) in
+  Qred ((B / W + n - 1) / n).
 
 Definition qcount (p : Q -> bool) (l : list Q) : Q := inject_Z (Z.of_nat (length (filter p l))).
 Definition avg_rank (pool : list Q) (x : Q) : Q :=
